@@ -184,8 +184,11 @@ class Impl:
 
 def parse_timestr(s):
     """'2016-03-01T00:00:00.0000000' → (datetime of the whole second, 1e-7 s units)"""
-    a, b = s.split(".")
-    return datetime.strptime(a, "%Y-%m-%dT%H:%M:%S"), int(b.ljust(7, "0")[:7]) if len(b) <= 7 else None
+    try:
+        a, b = s.split(".")
+        return datetime.strptime(a, "%Y-%m-%dT%H:%M:%S"), int(b.ljust(7, "0")[:7]) if len(b) <= 7 else None
+    except ValueError:
+        return None, None  # not a valid epoch text: reported by the caller as a wrong epoch
 
 
 def relclose(x: float, q: Fraction, rel) -> bool:
